@@ -1,7 +1,7 @@
 #!/bin/bash
 # verify seeded defects produced by sub-agents: for each /tmp/mut_<ID>_out/<V>: patched tree builds,
 # full ctest passes, demo fails; unpatched: demo passes.  Results -> /tmp/seedverify/<ID>_<V>.txt
-WT=/tmp/seedv_wt
+WT=${WT:-/tmp/seedv_wt}
 OUT=/tmp/seedverify
 mkdir -p $OUT
 if [ ! -d $WT ]; then
@@ -11,7 +11,7 @@ if [ ! -d $WT ]; then
 fi
 for spec in "$@"; do
   ID=${spec%%:*}; V=${spec##*:}
-  D=/tmp/mut_${ID}_out/$V
+  D=${DBASE:-/tmp/mut}_${ID}_out/$V
   R=$OUT/${ID}_$V.txt
   [ -f $D/patch.diff ] || { echo "missing $D" > $R; continue; }
   cd $WT && git checkout -- . 
